@@ -6,6 +6,7 @@ import (
 	"reflect"
 	"time"
 
+	age "github.com/craterdog/go-collection-framework/v4/agent"
 	col "github.com/craterdog/go-collection-framework/v4/collection"
 	rt "github.com/craterdog/go-collection-framework/v4/verifrt"
 	"verif/checks/common"
@@ -231,6 +232,9 @@ func exec(r *engine.Rec, name string) func(path []Op, op Op) seqx.Step {
 		}
 		if s.GetSize() > int(s.GetCapacity()) {
 			return viol("size exceeds capacity after "+op.K, fmt.Sprint(s.GetSize(), s.GetCapacity()))
+		}
+		if why := common.TwoLiveIterators[int](func() age.IteratorLike[int] { return s.GetIterator() }, nm.vals, true); why != "" {
+			return viol("two iterators over one stack influence each other", why)
 		}
 		if guardSrc != nil && common.View(guardSrc) != guardDump {
 			return viol(op.K+" on a stack built from another stack changes that other stack (shared storage)", fmt.Sprintf("source now %v", guardSrc.AsArray()))
